@@ -14,13 +14,50 @@ import (
 	"gonum.org/v1/gonum/internal/verif/vlib"
 )
 
+// lapackNoContract lists the exported methods without an argument contract:
+// pure scalar routines (no dimension, stride, slice or flag argument), Dlasy2
+// ("these conditions are not checked") and the tuning-parameter functions.
+var lapackNoContract = []string{"Dlae2", "Dlaev2", "Dlag2", "Dlags2", "Dlanv2", "Dlapy2", "Dlartg", "Dlas2", "Dlasv2", "Dlasy2", "Ilaenv", "Iparmq"}
+
 func genLapack(g *vlib.G) {
 	if vlib.Env("VERIF_CONFIG", "default") == "bounds" {
 		return // the bounds tag only affects mat
 	}
 	impl := reflect.ValueOf(lgonum.Implementation{})
+	rows := lapackRows()
+	g.Case("table", func(t *vlib.T) {
+		// every exported method of lapack/gonum.Implementation is either a row of the
+		// table or listed as having no argument contract.
+		seen := map[string]int{}
+		for _, r := range rows {
+			seen[r.name]++
+		}
+		for _, n := range lapackNoContract {
+			seen[n]++
+		}
+		ty := impl.Type()
+		var bad []string
+		for i := 0; i < ty.NumMethod(); i++ {
+			n := ty.Method(i).Name
+			if seen[n] != 1 {
+				bad = append(bad, n)
+			}
+			delete(seen, n)
+		}
+		for n := range seen {
+			bad = append(bad, "+"+n)
+		}
+		sort.Strings(bad)
+		if len(bad) > 0 {
+			t.Failf("contract table and lapack/gonum.Implementation disagree: %v", bad)
+		}
+		t.Count("lapack_methods", int64(ty.NumMethod()))
+		t.Count("lapack_rows", int64(len(rows)))
+		t.Outcome(fmt.Sprintf("methods=%d rows=%d", ty.NumMethod(), len(rows)))
+		t.Nontrivial()
+	})
 	defMenu := vlib.Pick(g, []int{0, 1, 2, 3, 5}, []int{0, 1, 2, 3, 4, 6})
-	for _, r := range lapackRows() {
+	for _, r := range rows {
 		lm := newLMethod(impl, r)
 		type axis struct {
 			name string
@@ -35,6 +72,10 @@ func genLapack(g *vlib.G) {
 					vals[i] = int(b)
 				}
 				axes = append(axes, axis{a.name, vals})
+			case lkBool:
+				if a.enum {
+					axes = append(axes, axis{a.name, []int{0, 1}})
+				}
 			case lkDim:
 				menu := defMenu
 				if r.dims != nil {
@@ -57,7 +98,7 @@ func genLapack(g *vlib.G) {
 			for i, a := range axes {
 				x := a.vals[idx[i]]
 				vals[a.name] = x
-				if r.args[r.pos[a.name]].kind == lkFlag {
+				if r.args[r.pos[a.name]].kind == lkFlag && x > 32 {
 					fmt.Fprintf(&key, " %s=%c", a.name, rune(x))
 				} else {
 					fmt.Fprintf(&key, " %s=%d", a.name, x)
@@ -117,7 +158,7 @@ func runLapackCase(t *vlib.T, lm *lmethod, vals map[string]int) {
 	}
 	sort.Strings(ks)
 	e := &lenv{v: vals}
-	if lm.isEmptyDims(e) {
+	if lm.isEmpty(e) {
 		t.Outcome("zero-sized problem: " + strings.Join(ks, "+"))
 	} else {
 		t.Outcome(r.name + ": " + strings.Join(ks, "+"))
